@@ -21,6 +21,7 @@ import (
 	"time"
 
 	simplefixgo "github.com/b2broker/simplefix-go"
+	fixgen "github.com/b2broker/simplefix-go/tests/fix44"
 	"github.com/b2broker/simplefix-go/utils"
 
 	"verifharness/internal/desc"
@@ -30,20 +31,21 @@ import (
 // ---------- scripted transport ----------
 
 type scriptConn struct {
-	mu        sync.Mutex
-	chunks    [][]byte
-	pause     []time.Duration
-	idx       int
-	closed    chan struct{}
-	once      sync.Once
-	writes    [][]byte
-	wsignal   chan struct{}
-	eofAtEnd  bool   // the peer closes after its last byte: Read reports end of stream
-	wire      []byte // every byte the transport accepted, in order
-	stallAt   int    // the stallAt-th Write (1-based) takes only stallKeep bytes and then times out; 0 = never
-	stallKeep int
-	rdl       time.Time // read deadline, as set through SetDeadline / SetReadDeadline
-	waited    bool      // the silence before the current chunk has been served
+	mu         sync.Mutex
+	chunks     [][]byte
+	pause      []time.Duration
+	idx        int
+	closed     chan struct{}
+	once       sync.Once
+	writes     [][]byte
+	wsignal    chan struct{}
+	eofAtEnd   bool          // the peer closes after its last byte: Read reports end of stream
+	wire       []byte        // every byte the transport accepted, in order
+	stallAt    int           // the stallAt-th Write (1-based) takes only stallKeep bytes and then times out; 0 = never
+	writeDelay time.Duration // a slow peer: every Write takes this long before the transport has the bytes
+	stallKeep  int
+	rdl        time.Time // read deadline, as set through SetDeadline / SetReadDeadline
+	waited     bool      // the silence before the current chunk has been served
 }
 
 func newScriptConn(chunks [][]byte, pause []time.Duration) *scriptConn {
@@ -122,6 +124,9 @@ func (c *scriptConn) Write(b []byte) (int, error) {
 	case <-c.closed:
 		return 0, io.ErrClosedPipe
 	default:
+	}
+	if c.writeDelay > 0 {
+		time.Sleep(c.writeDelay)
 	}
 	c.mu.Lock()
 	if c.stallAt > 0 && len(c.writes)+1 == c.stallAt {
@@ -745,6 +750,56 @@ func runStalledWrite(id int, r *rng.R, role string) {
 	emit(rec)
 }
 
+// runReusedMessage: an application keeps one message object, sends it, changes it and sends it again
+// while the first hand-off still waits behind a slow write. What was handed off is what is written:
+// the wire carries the two serializations, each as it was at the time of its Send.
+func runReusedMessage(id int, r *rng.R) {
+	mk := func(seq int, text string) *fixgen.MarketDataRequestReject {
+		m := fixgen.NewMarketDataRequestReject()
+		m.SetMDReqID("req-1")
+		m.SetText(text)
+		m.HeaderBuilder().SetFieldMsgSeqNum(seq)
+		return m
+	}
+	long := "a rather long text " + strings.Repeat("x", r.Range(5, 60))
+	short := []string{"short", long[:len(long)-r.Range(1, 10)], "y" + long[1:]}[r.Intn(3)] // shorter or of equal length: no reallocation hides a reused buffer
+	want0, _ := mk(1, "first").ToBytes()
+	want1, _ := mk(2, long).ToBytes()
+	want2, _ := mk(3, short).ToBytes()
+	sc := newScriptConn(nil, nil)
+	sc.writeDelay = 40 * time.Millisecond
+	h := simplefixgo.NewInitiatorHandler(context.Background(), "35", 4)
+	ini := simplefixgo.NewInitiator(sc, h, 4, time.Minute)
+	go func() { _ = ini.Serve() }()
+	time.Sleep(5 * time.Millisecond)
+	e0 := h.Send(mk(1, "first")) // keeps the writer busy
+	time.Sleep(5 * time.Millisecond)
+	m := mk(2, long)
+	e1 := h.Send(m)
+	m.SetText(short)
+	m.HeaderBuilder().SetFieldMsgSeqNum(3)
+	e2 := h.Send(m)
+	waitFor(func() bool { sc.mu.Lock(); defer sc.mu.Unlock(); return len(sc.writes) >= 3 }, 2*time.Second)
+	sc.mu.Lock()
+	wire := append([]byte{}, sc.wire...)
+	sc.mu.Unlock()
+	ini.Close()
+	h.Stop()
+	want := append(append(append([]byte{}, want0...), want1...), want2...)
+	rec := &Rec{ID: id, Mode: "stream-reused-message", Case: fmt.Sprintf("initiator: one message object sent, changed and sent again behind a slow write (texts of %d and %d bytes)", len(long), len(short)),
+		Oracle: map[string]string{}, Tags: []string{"reused-message-object"}, Size: len(want), Skip: true}
+	rec.Impl = fmt.Sprintf("wire=%d", len(wire))
+	switch {
+	case e0 != nil || e1 != nil || e2 != nil:
+		rec.Oracle["C04"] = fmt.Sprintf("fail: Send returned an error: %v %v %v", e0, e1, e2)
+	case !bytes.Equal(wire, want):
+		rec.Oracle["C04"] = fmt.Sprintf("fail: a message object was sent, changed and sent again while its first hand-off waited behind a slow write: the wire carries %q, handed off were %q", wire, want)
+	default:
+		rec.Oracle["C04"] = "ok"
+	}
+	emit(rec)
+}
+
 func main() {
 	seed := flag.Uint64("seed", 1, "seed")
 	n := flag.Int("n", 100, "number of cases")
@@ -773,6 +828,11 @@ func main() {
 		}
 		if i%25 == 13 {
 			runQuiet(id, r, []string{"initiator", "acceptor"}[(i/25)%2])
+			id++
+			continue
+		}
+		if i%25 == 23 {
+			runReusedMessage(id, r)
 			id++
 			continue
 		}
